@@ -470,6 +470,9 @@ func runProperty(repo, mirror, id string, timeout int, tier string) *checkResult
 	for k := range p.UsedPureDynamic {
 		res.assumptions["calls through the callback field "+k+" are assumed not to write the heap (pure-dynamic directive)"] = true
 	}
+	for _, n := range p.constGlobalStale {
+		res.errors = append(res.errors, "contract-stale: constglobal "+n+" is written or has its address taken outside its package initialiser")
+	}
 	sort.Strings(res.funcs)
 	return res
 }
